@@ -108,7 +108,17 @@ def _load_offsets(cache_path, current_hash):
             ) = pickle.load(file)
             if current_hash is None or current_hash == serialized_hash:
                 return
-    except (FileNotFoundError, ValueError, TypeError):
+    except (
+        FileNotFoundError,
+        EOFError,
+        pickle.UnpicklingError,
+        AttributeError,
+        ImportError,
+        IndexError,
+        ValueError,
+        TypeError,
+    ):
+        # missing, empty, truncated or otherwise unreadable cache: rebuild it
         pass
 
     _search_regex_parts = []
